@@ -224,14 +224,14 @@ func main() {
 				if v.Model != nil {
 					val = v.Model[r.T.Name]
 				}
-				vo.Vec = append(vo.Vec, VecItem{Kind: r.Kind, Val: decodeCased(r.Kind, val, v.Model["lower("+r.T.Name+")"]), Tag: r.Tag})
+				vo.Vec = append(vo.Vec, VecItem{Kind: r.Kind, Val: withAffixes(r.Kind, r.T.Name, v.Model, decodeCased(r.Kind, val, v.Model["lower("+r.T.Name+")"])), Tag: r.Tag})
 			}
 			eo.Violations = append(eo.Violations, vo)
 		}
 		for _, w := range ex.Witnesses {
 			wo := WitnessOut{Reached: w.Reached}
 			for _, r := range w.ND {
-				wo.Vec = append(wo.Vec, VecItem{Kind: r.Kind, Val: decodeCased(r.Kind, w.Model[r.T.Name], w.Model["lower("+r.T.Name+")"])})
+				wo.Vec = append(wo.Vec, VecItem{Kind: r.Kind, Val: withAffixes(r.Kind, r.T.Name, w.Model, decodeCased(r.Kind, w.Model[r.T.Name], w.Model["lower("+r.T.Name+")"]))})
 			}
 			eo.Witnesses = append(eo.Witnesses, wo)
 		}
@@ -333,6 +333,27 @@ func decodeCased(kind, val, lower string) string {
 		}
 	}
 	return string(b)
+}
+
+// withAffixes: a string the model says has a literal prefix / suffix (uf_hasprefix / uf_hassuffix true) is rendered with
+// the longest such affix attached, so strings.HasPrefix / HasSuffix behave natively as in the model
+func withAffixes(kind, name string, model map[string]string, val string) string {
+	if kind != "string" || model == nil {
+		return val
+	}
+	pre, suf := "", ""
+	for k, v := range model {
+		if strings.TrimSpace(v) != "true" {
+			continue
+		}
+		if p := "hasprefix(" + name + ")|"; strings.HasPrefix(k, p) && len(k)-len(p) > len(pre) {
+			pre = k[len(p):]
+		}
+		if p := "hassuffix(" + name + ")|"; strings.HasPrefix(k, p) && len(k)-len(p) > len(suf) {
+			suf = k[len(p):]
+		}
+	}
+	return pre + val + suf
 }
 
 func dedup(in []string, max int) []string {
